@@ -109,6 +109,25 @@ func specTime(atom string) specFn {
 				strings.Contains(p[1].A[0].String(), "upd{plenccodec.ptime.Set}") && loadsFromPtr(p[1].A[0]) {
 				return true, ""
 			}
+			// the same written out: seconds = t.Unix(), nanoseconds = t.Nanosecond() of the time behind ptr
+			strip := func(t *T) *T {
+				for {
+					switch {
+					case (t.Op == "conv" || t.Op == "cast") && len(t.A) == 1:
+						t = t.A[0]
+					case t.Op == "deref" && len(t.A) == 1 && t.A[0].Op == "cast" && len(t.A[0].A) == 1 && t.A[0].A[0].Op == "addr" && len(t.A[0].A[0].A) == 1:
+						// *(*uint64)(unsafe.Pointer(&x)): the same bits as an unsigned number
+						t = t.A[0].A[0].A[0]
+					default:
+						return t
+					}
+				}
+			}
+			sec, ns := strip(p[1].A[0]), strip(p[3].A[0])
+			if sec.Op == "call" && sec.K == "time.Unix" && ns.Op == "call" && ns.K == "time.Nanosecond" &&
+				len(sec.A) == 1 && len(ns.A) == 1 && eq(sec.A[0], ns.A[0]) && loadsFromPtr(sec.A[0]) {
+				return true, ""
+			}
 		}
 		return false, "expected seconds as field 1 and nanoseconds as field 2, both " + atom + "s, both always written"
 	}
